@@ -1103,8 +1103,9 @@ func (e *exec) insert(n *ast.InsertStmt) (*Result, error) {
 }
 
 func (e *exec) update(n *ast.UpdateStmt) (*Result, error) {
-	if n.Limit != nil || n.Order != nil {
-		return nil, unsupported("update with order by / limit")
+	// ORDER BY without LIMIT does not change which rows an UPDATE touches
+	if n.Limit != nil {
+		return nil, unsupported("update with limit")
 	}
 	t, alias, err := e.table(n.TableRefs)
 	if err != nil {
@@ -1150,8 +1151,9 @@ func (e *exec) update(n *ast.UpdateStmt) (*Result, error) {
 }
 
 func (e *exec) del(n *ast.DeleteStmt) (*Result, error) {
-	if n.Limit != nil || n.Order != nil || n.IsMultiTable {
-		return nil, unsupported("delete with order by / limit / several tables")
+	// ORDER BY without LIMIT does not change which rows a DELETE removes
+	if n.Limit != nil || n.IsMultiTable {
+		return nil, unsupported("delete with limit / several tables")
 	}
 	t, alias, err := e.table(n.TableRefs)
 	if err != nil {
